@@ -11,7 +11,8 @@ From J5V.model Require Import Desc J5sAst J5sWalk J5sConvert CmpbOrder CmpbInsta
 From J5V.proofs Require Import CmpbOrderProofs CmpbComposeProofs CmpbStateProofs CmpbLinkTotalProofs.
 From J5V.model Require ProtoPrintFile.
 From J5V.proofs Require CmpbPrintBridgeProofs CmpbPrintBridgeExample ProtoPrintFileExample.
-From J5V.model Require CmpbBytes.
+From J5V.model Require CmpbBytes ProtoPrintFileWf ProtoParseFile.
+From J5V.proofs Require ProtoPrintFileFullProofs.
 From J5V.proofs Require CmpbBytesProofs CmpbBytesExampleProofs CmpbBytesDepsProofs.
 Import ListNotations.
 Local Open Scope N_scope.
@@ -107,6 +108,20 @@ Proof.
         (conj CmpbBytesExampleProofs.exb_range_differs CmpbBytesExampleProofs.exb_total))))))))).
 Qed.
 Print Assumptions C14_example_output_bytes.
+
+(* ... and the tokens of the example are protobuf text FOR the descriptor in tool's model: every printer descriptor that
+   to_print builds there, under both Range orders, is well formed in tool's sense (every type reference resolves in the symbol
+   table of the file and its imports ...), so (tool's round-trip theorem) the printed tokens parse back to an equivalent descriptor *)
+Example C14_example_output_reads_back :
+  forall out, CmpbBytes.compile_run CmpbBytesExampleProofs.exb_bd CmpbBytesExampleProofs.exb_exts CmpbBytesExampleProofs.exb_r1 (b "foo.v1") = Some out ->
+  forall x, In x out -> forall rng, rng = CmpbBytes.r_range CmpbBytesExampleProofs.exb_r1 \/ rng = CmpbBytes.r_range CmpbBytesExampleProofs.exb_r2 ->
+    ProtoPrintFileWf.wf_dfile_b (CmpbBytes.imp_symtab CmpbBytesExampleProofs.exb_ann (CmpbBytes.l_imports (snd x)))
+                                (CmpbBytes.reorder rng (CmpbBytes.to_print CmpbBytesExampleProofs.exb_ann (snd x))) = true
+    /\ exists D', ProtoParseFile.parse_file_tokens (CmpbBytes.imp_symtab CmpbBytesExampleProofs.exb_ann (CmpbBytes.l_imports (snd x)))
+                     (CmpbBytes.print_linked CmpbBytesExampleProofs.exb_ann rng (snd x)) = Some D'
+                  /\ ProtoPrintFileFullProofs.desc_equiv (CmpbBytes.reorder rng (CmpbBytes.to_print CmpbBytesExampleProofs.exb_ann (snd x))) D'.
+Proof. exact CmpbBytesExampleProofs.exb_printed_reads_back. Qed.
+Print Assumptions C14_example_output_reads_back.
 
 (* the Dependency list INSIDE those descriptors: cmpa's converter builds fl_deps with J5sConvert.deps_of, which is this
    family's ensure_all (the function C14's correspondence CImportsIso compares with real Dependency lists) of the
